@@ -416,12 +416,19 @@ mod header_serde {
     where
         S: Serializer,
     {
-        serializer.collect_map(headers.iter().map(|(name, values)| {
-            (
-                name.as_str(),
-                values.iter().map(|v| v.as_str()).collect::<Vec<_>>(),
-            )
-        }))
+        // The header map iterates in an arbitrary, randomly seeded order: sort by name, so that
+        // the same response always serializes to the same bytes
+        let sorted: std::collections::BTreeMap<&str, Vec<&str>> = headers
+            .iter()
+            .map(|(name, values)| {
+                (
+                    name.as_str(),
+                    values.iter().map(|v| v.as_str()).collect::<Vec<_>>(),
+                )
+            })
+            .collect();
+
+        serializer.collect_map(sorted)
     }
 
     pub fn deserialize<'de, D>(deserializer: D) -> Result<Headers, D::Error>
